@@ -36,8 +36,9 @@ import preplib as P
 
 # ---- the proof obligations (coq/props/C15.v); everything below works independently of this list
 THEOREMS = ["C15_selects", "C15_selects_nontrivia", "C15_selects_text", "C15_selects_lexed", "C15_disabled_invisible",
-            "C15_disabled_covered", "C15_unterminated", "C15_unterminated_lexed", "C15_missing_name",
-            "C15_missing_name_lexed"]
+            "C15_disabled_covered", "C15_unterminated", "C15_unterminated_lexed", "C15_missing_name", "C15_missing_name_lexed",
+            "C15_parse_leaves_any_program", "C15_disabled_no_nodes", "C15_errors_any_program", "C15_disabled_no_errors",
+            "C15_errors_skip_first", "C15_errors_grammar", "C15_disabled_no_errors_grammar"]
 TRUSTED = [
     "Coq 8.16.1 kernel (coqc); Print Assumptions of every theorem is checked against the allow-list (none)",
     "statement of the specification coq/model/PrepSpec.v (items, items_ok, render_items, select, partial arrangements, missing_name), "
@@ -48,8 +49,9 @@ TRUSTED = [
     "modelled Rust std contracts: HashSet<EcoString> insert/contains as a set of names, usize::saturating_sub, str slicing by lexer cursors",
     "Coq extraction (ExtrOcamlBasic only) and the OCaml driver coq/extract/prepspec_driver.ml",
     "Rust harness harness/src/bin/{prepdump,parsedump,lexdump}.rs, this Python driver and lib/preplib.py (reference evaluator, structure parser)",
-    "C15_disabled_invisible speaks about the delivered token stream; that trivia tokens produce no node / declaration / diagnostic is the parser's and "
-    "indexer's part (C01/C03) and is exercised here by the metamorphic parse comparison, not proved",
+    "parser level (C15_parse_leaves_any_program, C15_disabled_no_nodes, C15_disabled_no_errors*): proved on b-parser's model of parser.rs / the grammar DSL "
+    "(coq/model/ParserPrims.v, GInterp.v, gen/GenGrammar.v), which is tied to the code by C01/C02's correspondence and here by the parse-level oracle and the "
+    "metamorphic parse comparison; that the INDEXER ignores trivia (no declaration from a PreProcessor leaf) is C03/C05's part, exercised here only through parse trees",
 ]
 BINS = ["prepdump", "parsedump", "lexdump"]
 MAXKEEP = 12
